@@ -57,6 +57,8 @@ def configs(tier, seed):
         cfgs.append({"aw": aw, "dw": rng.choice([8, 16, 32]), "align": align, "subs": subs})
         if rng.random() < 0.3:
             cfgs[-1]["refused_before"] = sorted(set(rng.sample(range(len(subs) + 1), rng.randint(1, 2))))
+        if rng.random() < 0.25 and len(subs) >= 2:
+            cfgs[-1]["elab_before"] = [len(subs) - 1]
     return cfgs
 
 
@@ -95,6 +97,9 @@ def build(cfg, upto=None):
         for i in range(len(cfg["subs"]) if upto is None else upto):
             if i in cfg.get("refused_before", ()):
                 refused_add(dec, i)
+            if i in cfg.get("elab_before", ()):
+                from amaranth.hdl import Fragment
+                Fragment.get(dec, None)          # elaborated once with the windows added so far; more are added afterwards
             add(dec, i)
         if len(cfg["subs"]) in cfg.get("refused_before", ()) and upto is None:
             refused_add(dec, len(cfg["subs"]))
